@@ -6,6 +6,8 @@ import (
 	"encoding/binary"
 	"encoding/hex"
 	"fmt"
+	"io"
+	"os"
 	"strings"
 	"time"
 
@@ -141,9 +143,21 @@ func spzObs(stream []byte) (lit string, fail string) {
 	if r.pan != nil {
 		return "None", fmt.Sprintf("spz.Read panicked: %v", r.pan)
 	}
-	if r.err != nil || r.c == nil {
-		return "None", ""
+	// the same compressed stream through every reader shape, through ReadHeader and (valid streams) through Load
+	refOK := r.err == nil && r.c != nil
+	dg := ""
+	if refOK {
+		dg = meshDigest(r.c.Mesh)
 	}
+	side := spzSideChecks(gz(stream), refOK, dg, r.c)
+	if r.err != nil || r.c == nil {
+		return "None", side
+	}
+	defer func() {
+		if fail == "" {
+			fail = side
+		}
+	}()
 	h := r.c.Header
 	m := r.c.Mesh
 	var sb strings.Builder
@@ -196,6 +210,93 @@ func spzObs(stream []byte) (lit string, fail string) {
 		fail = fmt.Sprintf("spz.Read: %d points declared, point cloud has %d primitives", n, m.PrimitiveCount())
 	}
 	return sb.String(), fail
+}
+
+// spzSideChecks: spz.Read through the reader shapes; spz.ReadHeader agrees with Read (same header, no error) on a
+// stream Read accepts; spz.Load of the stream written to a file returns what Read returned.
+func spzSideChecks(zbytes []byte, refOK bool, dg string, ref *spz.Cloud) string {
+	if f := shapeCheck("spz.Read", zbytes, refOK, dg, func(in io.Reader) (*modeling.Mesh, error) {
+		c, e := spz.Read(in)
+		if c == nil {
+			return nil, e
+		}
+		if e == nil && ref != nil && c.Header != ref.Header {
+			return nil, fmt.Errorf("header %+v differs from %+v", c.Header, ref.Header)
+		}
+		return &c.Mesh, e
+	}); f != "" {
+		return f
+	}
+	if !refOK {
+		return ""
+	}
+	var hdr *spz.Header
+	var herr error
+	func() {
+		defer func() {
+			if rec := recover(); rec != nil {
+				herr = fmt.Errorf("panic: %v", rec)
+			}
+		}()
+		hdr, herr = spz.ReadHeader(bytes.NewReader(zbytes))
+	}()
+	if herr != nil || hdr == nil || *hdr != ref.Header {
+		return fmt.Sprintf("spz.ReadHeader = (%+v, %v) on a stream spz.Read decodes with header %+v", hdr, herr, ref.Header)
+	}
+	// Load: only every few streams touch the file system
+	if len(zbytes)%4 == 0 {
+		f, err := os.CreateTemp("", "c15-*.spz")
+		if err != nil {
+			return ""
+		}
+		name := f.Name()
+		f.Write(zbytes)
+		f.Close()
+		defer os.Remove(name)
+		var lc *spz.Cloud
+		var lerr error
+		func() {
+			defer func() {
+				if rec := recover(); rec != nil {
+					lerr = fmt.Errorf("panic: %v", rec)
+				}
+			}()
+			lc, lerr = spz.Load(name)
+		}()
+		if lerr != nil || lc == nil || lc.Header != ref.Header || meshDigest(lc.Mesh) != dg {
+			return fmt.Sprintf("spz.Load of the stream written to a file differs from spz.Read (error %v)", lerr)
+		}
+	}
+	return ""
+}
+
+// spzHdrCase: spz.ReadHeader on an arbitrary (possibly invalid or short) stream: the header it returns and whether
+// it reports an error.  Only the first 24 bytes of the stream go to Coq (the header has 16).
+func spzHdrCase(d bytesDesc) hx.Case {
+	stream, _ := hex.DecodeString(d.Hex)
+	c := hx.Case{Kind: "spzhdr", Desc: d, Nontriv: len(stream) >= 16, Key: "zh|" + d.Hex}
+	var hdr *spz.Header
+	var herr error
+	func() {
+		defer func() {
+			if rec := recover(); rec != nil {
+				herr = fmt.Errorf("panic: %v", rec)
+				c.GoFail, c.FailKey = fmt.Sprintf("spz.ReadHeader panicked: %v", rec), "spz:read-crash"
+			}
+		}()
+		hdr, herr = spz.ReadHeader(bytes.NewReader(gz(stream)))
+	}()
+	lit := "None"
+	if hdr != nil {
+		lit = fmt.Sprintf("(Some (Build_header %d %d %d %d %d %d %d))", hdr.Magic, hdr.Version, hdr.NumPoints, hdr.ShDegree,
+			hdr.FractionalBits, hdr.Flags, hdr.Reserved)
+	}
+	pre := stream
+	if len(pre) > 24 {
+		pre = pre[:24]
+	}
+	c.Coq = fmt.Sprintf("CSpzHdr %s %s %s", hx.CoqListN(pre), lit, hx.CoqBool(herr == nil))
+	return c
 }
 
 func precLit(version uint32, p pointDesc) string {
@@ -432,6 +533,99 @@ func spzFixed(run *hx.Run, r *hx.Rng, thorough bool) {
 			}
 			run.Add(spzCase(d))
 		}
+	}
+	// rotation triples: every combination of the corner bytes on the three channels (343 points per file), so that
+	// triples on, inside and outside the unit ball all occur: (255,255,255), (0,0,0), (255,127,127), (128,128,128) ...;
+	// the colour and scale triples run through the same corner product in a different order
+	corner := []uint8{0, 1, 127, 128, 129, 254, 255}
+	for version := uint32(1); version <= 2; version++ {
+		d := spzDesc{Magic: spzMagic, Version: version, ShDegree: uint8(version - 1), FracBits: 10}
+		nc := len(corner)
+		for a := 0; a < nc; a++ {
+			for b := 0; b < nc; b++ {
+				for c := 0; c < nc; c++ {
+					p := genPoint(r, version, d.ShDegree)
+					if version == 1 {
+						for k := range p.Pos {
+							p.Pos[k] &^= 1 << 10
+						}
+					}
+					p.Rot = [3]uint8{corner[a], corner[b], corner[c]}
+					p.Col = [3]uint8{corner[c], corner[a], corner[b]}
+					p.Scale = [3]uint8{corner[b], corner[c], corner[a]}
+					p.Alpha = corner[(a+b+c)%nc]
+					d.Points = append(d.Points, p)
+				}
+			}
+			// one file per value of the first channel (49 points): the model's list indexing is quadratic in the count
+			run.Add(spzCase(d))
+			d.Points = nil
+		}
+	}
+	// the rotation sphere: for every pair (b0, b1) on a coarse grid the two b2 values next to the unit sphere
+	// (|xyz|^2 just below / just above 1)
+	{
+		d := spzDesc{Magic: spzMagic, Version: 2, ShDegree: 0, FracBits: 8}
+		deq := func(b int) float64 { return float64(b)/127.5 - 1 }
+		for b0 := 0; b0 < 256; b0 += 31 {
+			for b1 := 0; b1 < 256; b1 += 31 {
+				rest := 1 - deq(b0)*deq(b0) - deq(b1)*deq(b1)
+				for b2 := 128; b2 < 256; b2++ {
+					if deq(b2)*deq(b2) > rest {
+						for _, bb := range []int{b2 - 1, b2, 255 - b2, 256 - b2} {
+							p := genPoint(r, 2, 0)
+							p.Rot = [3]uint8{uint8(b0), uint8(b1), uint8(bb)}
+							d.Points = append(d.Points, p)
+						}
+						break
+					}
+				}
+			}
+			run.Add(spzCase(d))
+			d.Points = nil
+		}
+		run.Count("spz:rotation-grids")
+	}
+	// flags (bit 0 = antialiased) and the reserved byte are carried through unchanged, for every version and degree
+	for version := uint32(1); version <= 2; version++ {
+		for deg := uint8(0); deg <= 3; deg++ {
+			for k, fl := range []uint8{1, 2, 0x80, 0xff} {
+				d := spzDesc{Magic: spzMagic, Version: version, ShDegree: deg, FracBits: uint8(4 + 3*k), Flags: fl, Reserved: uint8(k % 2 * 7)}
+				p := genPoint(r, version, deg)
+				d.Points = []pointDesc{p}
+				run.Add(spzCase(d))
+			}
+		}
+	}
+	run.Count("spz:flags-grid")
+	// ReadHeader: valid headers of every version / degree / flag, every kind of invalid header, short streams
+	{
+		hdr := func(magic, version, n uint32, deg, fb, fl, res uint8, extra int) {
+			s := refHeader(magic, version, n, deg, fb, fl, res)
+			for k := 0; k < extra; k++ {
+				s = append(s, byte(7*k+1))
+			}
+			run.Add(spzHdrCase(bytesDesc{Hex: hex.EncodeToString(s)}))
+		}
+		for version := uint32(0); version <= 3; version++ {
+			for deg := uint8(0); deg <= 4; deg++ {
+				hdr(spzMagic, version, uint32(deg)*1000+version, deg, uint8(3*deg+uint8(version)), uint8(version), deg, int(deg)*3)
+			}
+		}
+		for _, n := range []uint32{0, 1, 9999999, 10000000, 10000001, 1 << 24, 0x7fffffff, 0x80000000, 0xffffffff} {
+			hdr(spzMagic, 2, n, 1, 12, 0, 0, 0)
+		}
+		for _, m := range []uint32{0, spzMagic ^ 1, spzMagic ^ 0x80000000, 0x4e475350, spzMagic + 256} {
+			hdr(m, 2, 3, 0, 12, 0, 0, 5)
+		}
+		hdr(spzMagic, 0x101, 3, 0, 12, 0, 0, 0)
+		hdr(spzMagic, 0x10001, 3, 0, 12, 0, 0, 0)
+		hdr(spzMagic, 2, 3, 255, 255, 255, 255, 0)
+		full := refHeader(spzMagic, 2, 1, 0, 12, 1, 0)
+		for _, k := range []int{0, 1, 4, 8, 12, 15} {
+			run.Add(spzHdrCase(bytesDesc{Hex: hex.EncodeToString(full[:k])}))
+		}
+		run.Count("spz:readheader-grid")
 	}
 	// zero points, every version and degree
 	for version := uint32(1); version <= 2; version++ {
